@@ -8,6 +8,7 @@ import PandoraModel.Properties.C13CrossCheck
 import PandoraModel.Properties.C13MatchingCost
 import PandoraModel.Properties.C13Pipeline
 import PandoraModel.Properties.C13Cbca
+import PandoraModel.Properties.C13Wiring
 open Pandora.C13
 #print axioms Local.comp
 #print axioms Local.pair
@@ -95,3 +96,4 @@ open Pandora.C13
 #print axioms ccOnT_local
 #print axioms ccOnT_equivariant
 #print axioms pipeConeT_documented
+#print axioms mc_wta_crop_eq_whole
